@@ -250,7 +250,7 @@ func TxnHistory(e *Env, store *FlakyStore, steps int) {
 		e.Trace.Write(V{"fn": "snapcheck", "hist": e.Hist, "step": e.Step, "id": s.id, "kind": s.kind, "pre": V{"docs": s.rest}, "post": V{"docs": e.list(rest)}})
 	}
 	// a probe write must succeed (the writer slot is free again)
-	ctx, cancel := context.WithTimeout(plainCtx, 2*time.Second)
+	ctx, cancel := context.WithTimeout(plainCtx, 15*time.Second)
 	e.Ctx = ctx
 	e.Actor = "probe"
 	e.Do(e.InsertOne("d.probe", d("_id", int32(1))))
